@@ -24,7 +24,7 @@ func init() {
 			StatesMean:  "distinct numbers x tried; transitions = real Next calls (one per x, evaluating 18 built-in calls)",
 			Assumptions: []string{"numbers outside the structured alphabet are not covered (no random bit patterns: sampling is not used)", "round_places: half-unit bound plus one ulp of x plus one ulp of the result (neither is a decimal in general)", "strings whose status as number / boolean is debatable (\" 1\", \"1e3\", \"1\" as boolean, \"TRUE\") are not constrained"},
 		},
-		QuickBudget: 70 * time.Second, ThoroughBudget: 14 * time.Minute, CrashIsViolation: true,
+		QuickBudget: 180 * time.Second, ThoroughBudget: 14 * time.Minute, CrashIsViolation: true,
 		Run: runC19,
 	})
 }
